@@ -726,6 +726,17 @@ func (d *Document) Save(filename string) error {
 		Debugf("已写入ZIP条目: %s (%d 字节)", name, len(data))
 	}
 
+	// 显式关闭ZIP写入器和文件并检查错误：中央目录和缓冲数据在关闭时才真正写入，
+	// 关闭失败（磁盘已满、超出文件大小限制等）意味着文件不完整
+	if err := zipWriter.Close(); err != nil {
+		Errorf("无法完成ZIP写入: %s", filename)
+		return WrapErrorWithContext("close_zip", err, filename)
+	}
+	if err := file.Close(); err != nil {
+		Errorf("无法关闭文件: %s", filename)
+		return WrapErrorWithContext("close_file", err, filename)
+	}
+
 	Infof("成功保存文档: %s", filename)
 	return nil
 }
